@@ -12,7 +12,7 @@ use refimpl as r;
 use refimpl::{Mode, MODES};
 use serde_json::json;
 
-const RULE: &str = "for seeds x sk provenance {generated, round-tripped}: get_public_key().into_bytes() must equal the generated pk bytes and the reference pk; the derived key, the generated key and try_from_bytes(pk bytes) must return the same boolean on valid signatures of all four modes (must be true: catches a wrong cached tr), on bit-flipped mutants, on signatures under another key and on wrong-context probes. Hostile accepted private keys (arbitrary tr/t0): derived pk bytes must equal the reference pkEncode(rho, Power2Round(A s1 + s2).t1). Non-trivial = distinct (seed, sk provenance) pairs whose derived key matched in bytes and in every decision.";
+const RULE: &str = "for seeds (fixed, random, and rare seeds found by an instrumented-reference scan whose t = A*s1 + s2 wraps past q or below 0 before reduction) x sk provenance {generated, round-tripped}: get_public_key().into_bytes() must equal the generated pk bytes and the reference pk; the derived key, the generated key and try_from_bytes(pk bytes) must return the same boolean on valid signatures of all four modes (must be true: catches a wrong cached tr), on bit-flipped mutants, on signatures under another key and on wrong-context probes. Hostile accepted private keys (arbitrary tr/t0): derived pk bytes must equal the reference pkEncode(rho, Power2Round(A s1 + s2).t1). Non-trivial = distinct (seed, sk provenance) pairs whose derived key matched in bytes and in every decision.";
 
 pub fn run(ctx: &Ctx) -> StageOut {
     let mut acc = Acc::new();
@@ -27,14 +27,22 @@ pub fn run(ctx: &Ctx) -> StageOut {
 
 fn run_set<S: PS>(ctx: &Ctx) -> Acc {
     let p = S::p();
-    let n_jobs = ctx.budget(24, 400) as usize;
+    // seeds whose A*s1 + s2 wraps past q / below 0 before reduction (about 1 in 10^4) come first:
+    // the derivation recomputes t and must reduce it exactly as key generation does
+    let rare: Vec<[u8; 32]> = rare_keygen_seeds(ctx, p, ctx.budget(24_000, 400_000) as usize).into_iter().filter(|r| r.tags.iter().any(|t| t.starts_with("t-wrap"))).map(|r| r.xi).collect();
+    let n_jobs = ctx.budget(24, 400) as usize + rare.len();
     let accs = par_map(n_jobs, |ji| {
         let mut acc = Acc::new();
         let mut g = Prng::derive(ctx.seed, &format!("c11-{}", p.name), ji as u64);
-        let xi = match ji {
-            0 => [0u8; 32],
-            1 => [0xFFu8; 32],
-            _ => g.arr32(),
+        let xi = if ji < rare.len() {
+            acc.count("rare_wrap_seeds_checked", 1);
+            rare[ji]
+        } else {
+            match ji - rare.len() {
+                0 => [0u8; 32],
+                1 => [0xFFu8; 32],
+                _ => g.arr32(),
+            }
         };
         let kb = match KeyBundle::<S>::new(xi) {
             Ok(k) => k,
